@@ -226,6 +226,11 @@ def run(ck, facts, tier):
                      sample="Some(%s(arr[[idx(lhs), idx(rhs)]]))" % variant)
         except Unsupported as e:
             ck.fail(r6, "rate[%s]" % variant, "rule could not be established (%s)" % e, where)
+    # "rejected ... and never yield rates", "returned exactly as quoted" also after updates and derivative-order switches: the market's state rules (C10 R10.3-R10.6)
+    from rules import c10
+    nd, tb = list(ck.not_decided), list(ck.trusted)
+    c10.run(ck, facts, tier, only={"R10.3", "R10.4", "R10.5", "R10.6"})
+    ck.not_decided[:], ck.trusted[:] = nd, tb
     ck.not_decided += ["that every valid tree of quotes is accepted (the node-selection heuristic with the visited set — liveness/termination of the recursive fill-in)",
                        "order/base independence as executed (it follows from uniqueness of tree paths given R09.2/R09.5 when the fill-in succeeds)",
                        "floating-point rounding of rate * inverse", "a loop body is evaluated once symbolically (generic iteration); loop-carried numeric effects are not modelled"]
